@@ -263,6 +263,11 @@ def check_per_label(rep, repo):
     counts = [("idx", ("call", ("mod", "numpy.unique"), (lab,), (("return_counts", ("const", True)),)), ("const", 1))
               for lab in (("param", "labels"), asarr("labels"))]
     counts += [("call", ("mod", "numpy.bincount"), (lab,), ()) for lab in (("param", "labels"), asarr("labels"))]
+    if len(divs) == 1 and divs[0].target not in counts and any(
+            t[0] == "call" and t[1][0] == "mod" and t[1][1].startswith("collections.") for t in subterms(divs[0].target)):
+        from ..core import AnalysisError
+        raise AnalysisError(f"{fi.qual}: the class sizes come from a collections table ('{show(divs[0].target)[:60]}'); in which order "
+                            "its entries line up with the classes is not something the measure rules can read - outside the analysable fragment")
     okd = len(divs) == 1 and divs[0].target in counts
     rep.fn("PL-denominator", fi, "errors of class c are divided by N_c (count of true labels c)", okd,
            f"division by '{show(divs[0].target) if divs else 'nothing'}'")
